@@ -1049,3 +1049,11 @@ uint64_t uv_metrics_idle_time(uv_loop_t* loop) {
     idle_time += uv_hrtime() - entry_time;
   return idle_time;
 }
+
+
+#ifdef UV_VERIF
+/* Default: a harness that wants the schedule points defines a strong symbol. */
+__attribute__((weak)) void uv__verif_point(int n) {
+  (void) n;
+}
+#endif
